@@ -13,7 +13,9 @@ from . import cpml_api as P
 from . import yee_api as Y
 from .common import f2h, h2f
 
-RULE = ("Placed scenes are built through BoundaryConfig(per-face fields) -> boundary_objects_from_config; per face each of "
+RULE = ("Fixed: two BoundaryConfig objects in which EVERY per-face field (kind, thickness, sigma/kappa/alpha "
+        "start/end/order of all six faces) has a distinct value -> boundary_objects_from_config must hand each face its own "
+        "values (class, axis, direction, thickness, nine grading parameters; exact). Placed scenes are built through BoundaryConfig(per-face fields) -> boundary_objects_from_config; per face each of "
         "sigma/kappa/alpha start/end/order is independently absent (None), the documented default written out, or another "
         "value; the model `coef` and the numpy oracle are fed with the grading the user's input calls for (absent -> "
         "documented default, default sigma_end from the formula), never with values read back from the placed object, and "
@@ -440,7 +442,70 @@ def scenario_case(ctx, s, sample=False):
         ctx.violation(s, d)
 
 
+# ------------------------------------------------------- per-face getters of BoundaryConfig (no placement needed)
+KINDS_B = {"min_x": "pml", "max_x": "pec", "min_y": "pmc", "max_y": "pml", "min_z": "periodic", "max_z": "bloch"}
+
+
+def distinct_config(variant):
+    """every per-face field of BoundaryConfig gets a DISTINCT value (base + face-dependent offset), so that a crossed
+    entry in any of the get_*_dict tables shows. variant A: PML on all faces; B: five different kinds"""
+    per = {}
+    for fi, face in enumerate(Y.FACES):
+        per[face] = dict(thickness=fi + 2, kind="pml" if variant == "A" else KINDS_B[face],
+                         sigma_start=0.01 * (fi + 1), sigma_end=1e5 * (fi + 2), sigma_order=2.0 + 0.25 * fi,
+                         kappa_start=1.0 + 0.1 * fi, kappa_end=2.0 + 0.5 * fi, kappa_order=1.0 + 0.5 * fi,
+                         alpha_start=1e-3 * (fi + 1), alpha_end=1e-4 * (fi + 1), alpha_order=1.0 + 0.25 * fi)
+    return dict(kind="config", variant=variant, per=per)
+
+
+def config_fails(inp, collect=None):
+    """boundary_objects_from_config(BoundaryConfig(**what the user wrote)) must hand every face its own values"""
+    f = Y.J()["fdtdx"]
+    kw = {}
+    for face, d in inp["per"].items():
+        kk = face.replace("_", "")
+        kw[f"boundary_type_{kk}"] = d["kind"]
+        kw[f"thickness_grid_{kk}"] = d["thickness"]
+        for name in P.GRADING_KEYS:
+            kw[f"{name}_{kk}"] = d[name]
+    vol = f.SimulationVolume(partial_grid_shape=(20, 20, 20))
+    bd, _ = f.boundary_objects_from_config(f.BoundaryConfig(**kw), vol)
+    cls = {"pml": "PerfectlyMatchedLayer", "pec": "PerfectElectricConductor", "pmc": "PerfectMagneticConductor",
+           "periodic": "BlochBoundary", "bloch": "BlochBoundary"}
+    bad = None
+    for face, d in inp["per"].items():
+        b = bd[face]
+        ax, di = P.axis_dir(face)
+        want = dict(cls=cls[d["kind"]], axis=ax, direction=di, thickness=d["thickness"] if d["kind"] == "pml" else 1)
+        have = dict(cls=type(b).__name__, axis=int(b.axis), direction=b.direction, thickness=int(b.partial_grid_shape[ax]))
+        if d["kind"] == "pml":
+            for name in P.GRADING_KEYS:
+                want[name] = float(d[name])
+                v = getattr(b, name)
+                have[name] = None if v is None else float(v)
+        if collect is not None:
+            collect.append((face, have, want))
+        for k in want:
+            if have[k] != want[k] and bad is None:
+                bad = f"{face}: the boundary object has {k} = {have[k]!r} but the configuration says {want[k]!r}"
+    return bad
+
+
+def k_config(ctx):
+    for variant in ("A", "B"):
+        inp = distinct_config(variant)
+        rows = []
+        d = config_fails(inp, rows)
+        ctx.impl_property_evals += 1
+        for face, have, want in rows:
+            ctx.expect_equal("boundary_objects_from_config " + face, inp, have, want)
+            ctx.case(nontrivial=("config", variant, face), config_variant=variant, config_kind=want["cls"])
+        if d:
+            ctx.violation(inp, d)
+
+
 def run(ctx):
+    k_config(ctx)
     # quick: ONE placed scene (non-uniform grid; the uniform curl/forward path with PMLs is K-checked by C03's quick
     # tier and run by the scenario below) + directly placed layers on a uniform config; thorough: both kinds, 4 each
     if ctx.thorough:
@@ -474,6 +539,8 @@ def run(ctx):
 # ------------------------------------------------------------------------------------------------ S
 def property_fails(inp):
     kind = inp.get("kind")
+    if kind == "config":
+        return config_fails(inp)
     if kind == "scenario":
         return scenario_fails(inp)
     # every other case lives in a scene: evaluate the coefficient oracle on all its layers, then a small scenario
